@@ -35,5 +35,6 @@ DigitsOK  == \A r \in Radices :
                     /\ ToInt(FromDigits(<<x, y>>, r)) = x * r + y
                     /\ ToInt(FromDigits(<<y, x, y>>, r)) = (y * r + x) * r + y
                     /\ IsBigNat(FromDigits(<<x, y, x>>, r))
+MulBigOK  == (SafeMul(x, y) /\ x * y < 2^30) => (IsBigNat(Mul(A, B)) /\ ToInt(Mul(A, B)) = x * y)
 Pow10OK   == \A k \in Smalls : (k <= 5 /\ SafeMul(x, 10^k) /\ x * 10^k < 2^30) => ToInt(MulPow10(A, k)) = x * 10^k
 =============================================================================
